@@ -1145,3 +1145,23 @@ pub fn seed_colr_tables(seed: u64, per_family: usize) -> Vec<(String, Vec<u8>)> 
     push("nested-glyph-6".into(), &Model::nested_glyph_chain(6), &mut rng);
     out
 }
+
+/// Base glyph ids the COLR table of `font` lists (a bounded number): (glyph id, listed in the v1 BaseGlyphList).
+pub fn listed_base_glyphs(font: &[u8]) -> Vec<(u32, bool)> {
+    let mut ids: Vec<(u32, bool)> = vec![];
+    let Ok(fr) = FontRef::new(font) else { return ids };
+    let Ok(colr) = fr.colr() else { return ids };
+    if let Some(Ok(list)) = colr.base_glyph_list() {
+        for r in list.base_glyph_paint_records().iter().take(12) {
+            ids.push((r.glyph_id().to_u32(), true));
+        }
+    }
+    if let Some(Ok(recs)) = colr.base_glyph_records() {
+        for r in recs.iter().take(6) {
+            ids.push((r.glyph_id().to_u32(), false));
+        }
+    }
+    ids.sort_unstable();
+    ids.dedup();
+    ids
+}
